@@ -29,6 +29,7 @@ structure DeferredWrite where
   content : Bytes
   newMode : Nat
   perm : PermResult
+  backup : Bool := false
   deriving Repr, Inhabited
 
 structure DState where
@@ -135,11 +136,14 @@ def fixPermissionsIfNeeded (o : Options) (outputFile : Bytes) : DM PermResult :=
       emit .readOnly
       if o.readOnly == .fail then
         return { oldPerms := old, needFix := true, hadFailure := true }
-    if !o.dryRun then
-      match old with
-      | some m => opChmod outputFile (m ||| writeMask)
-      | none => pure ()
   pure { oldPerms := old, needFix := needFix }
+
+/-- the `make_writable` callback of `write_patched_result_to_file`: a read-only file becomes writable only right before it is written -/
+def makeWritable (perm : PermResult) (p : Bytes) : DM Unit := do
+  if perm.needFix then
+    match perm.oldPerms with
+    | some m => opChmod p (m ||| writeMask)
+    | none => pure ()
 
 /-- the permission callback of `write_patched_result_to_file` -/
 def permissionCallback (newMode : Nat) (perm : PermResult) (p : Bytes) : DM Unit := do
@@ -230,22 +234,28 @@ def makeBackupFor (o : Options) (p : Bytes) : DM Unit := do
 def isSymlinkMode (m : Nat) : Bool := (m &&& 0o120000) == 0o120000
 
 /-- `write_patched_result_to_file` -/
-def writePatchedResult (p : Patch) (outputFile : Bytes) (perm : PermResult) (content : Bytes) : DM Unit := do
+def writePatchedResult (o : Options) (p : Patch) (outputFile : Bytes) (perm : PermResult) (shouldBackup : Bool) (content : Bytes) : DM Unit := do
   if p.operation == .add then ensureParentDirs outputFile
   if p.format == .git && p.operation != .delete then
     if isSymlinkMode p.newMode then do
+      if shouldBackup then makeBackupFor o outputFile
       let s ← get
       doOp (.symlink content (absPath s outputFile))
-    else modify fun s => { s with dWrites := s.dWrites ++ [{ dest := outputFile, content := content, newMode := p.newMode, perm := perm }] }
+    else modify fun s => { s with dWrites := s.dWrites ++ [{ dest := outputFile, content := content, newMode := p.newMode, perm := perm,
+                                                             backup := shouldBackup }] }
   else do
+    makeWritable perm outputFile
+    if shouldBackup then makeBackupFor o outputFile
     writeFile outputFile content
     permissionCallback p.newMode perm outputFile
 
 /-- `DeferredWriter::finalize` -/
-def finalizeDeferred : DM Unit := do
+def finalizeDeferred (o : Options) : DM Unit := do
   let s ← get
   for w in s.dWrites do
     ensureParentDirs w.dest
+    makeWritable w.perm w.dest
+    if w.backup then makeBackupFor o w.dest
     writeFile w.dest w.content
     permissionCallback w.newMode w.perm w.dest
   for p in s.dRemovals do
@@ -362,8 +372,7 @@ def processSection (o : Options) (format : Format) : DM Bool := do
         emit .notDeleting; failNow
     if writeToFile then
       if patch.operation == .add || patch.operation == .rename || patch.operation == .copy then ensureParentDirs outputFile
-      if shouldBackup then makeBackupFor o outputFile
-      writePatchedResult patch outputFile perm outBytes
+      writePatchedResult o patch outputFile perm shouldBackup outBytes
     if r.failed == 0 then
       if writeToFile && patch.operation == .rename then
         if patch.format == .git then modify fun s => { s with dRemovals := s.dRemovals ++ [fileToPatch] }
@@ -395,7 +404,7 @@ def processPatchM (o : Options) : DM Unit := do
   let lines := splitLines bytes
   modify fun s => { s with par := { s := { rest := lines } } }
   sectionLoop o format (lines.length + 2)
-  finalizeDeferred
+  finalizeDeferred o
 
 /-- `main` after option parsing: exit status and final state -/
 def runPatch (o : Options) (s0 : DState) : Nat × DState :=
